@@ -46,6 +46,14 @@ Theorem c04_nothing_new : forall s ids a c, reach (delete_all s ids) a c -> reac
 Proof. exact reach_mono. Qed.
 Print Assumptions c04_nothing_new.
 
+(* whatever key a container is addressed with - position, name, id, for features also the id or name of the
+   feature's data - the entity it resolves to (and del container[key] then removes) is a MEMBER of that container *)
+From NixV Require Import Proofs.MemberProofs.
+Theorem c04_key_resolves_to_member : forall s c ca k hsl k' a,
+  container_get_c s c ca k hsl = inl (k', a) -> exists k2, In (k2, a) (cont_links s ca).
+Proof. exact container_get_c_member. Qed.
+Print Assumptions c04_key_resolves_to_member.
+
 (* non-vacuity (Proofs/NonVacuous.v; concrete reachable states, by vm_compute) *)
 From NixV Require Proofs.NonVacuous.
 (* in that state the delete of the array (member of a group, referenced by a tag) succeeds and shortens the walk of the block *)
